@@ -62,14 +62,16 @@ def RS.receive (cfg : Cfg) (r : RS) (buf : Bytes) : RS × Bytes × Rx :=
       if cl0 < 0 then (r.clear, buf, .invalid)
       else
         let rxSize : Int := buf.length
-        let cl : Int :=
-          if rxSize > 0 && cl0 == 0 && (r.response.headers.fields.find (b!"content-length")).isEmpty
-          then (cfg.maxContent : Int) else cl0
+        let noCl : Bool :=
+          rxSize > 0 && cl0 == 0 && (r.response.headers.fields.find (b!"content-length")).isEmpty
+        let cl : Int := if noCl then (cfg.maxContent : Int) else cl0
         let required : Int := cl - r.body.length
-        let take : Nat := if rxSize > required then required.toNat else buf.length
-        let r := { r with body := r.body ++ buf.take take }
-        let rest := buf.drop take
-        if (r.body.length : Int) == cl0 then (r, rest, .valid) else (r, rest, .incomplete)
+        if rxSize > required && noCl then (r.clear, buf, .invalid)
+        else
+          let take : Nat := if rxSize > required then required.toNat else buf.length
+          let r := { r with body := r.body ++ buf.take take }
+          let rest := buf.drop take
+          if (r.body.length : Int) == cl0 then (r, rest, .valid) else (r, rest, .incomplete)
     else
       let r := if r.chunk.valid then { r with chunk := {} } else r
       if responseParsed then (r, buf, .valid)
